@@ -477,5 +477,7 @@ def replay(path):
     events = vlib.read_ndjson(path)
     rejects, _ = vlib.tlc_validate_sharded(TRACE, events, shards=1, tag="c20replay")
     for r in rejects:
-        print("REJECTED line %d: %s" % (r["line"], r["msg"]))
+        ev = events[r["line"]]
+        print("REJECTED line %d (%s): not a step of the abstract model (spec/core/Containers.tla)\n  before  : %s\n  recorded: %s" % (
+            r["line"] + 1, r["msg"], json.dumps(events[r["line"] - 1]) if r["line"] > 0 else "-", json.dumps(ev)))
     return 1 if rejects else 0
